@@ -235,7 +235,8 @@ def main(argv):
     ncached = counts[0]
     known = load_known()
     ledger = load_ledger().get(pid)
-    code, report = evaluate(pid, res, known, ledger, repo_root, tier)
+    shared_changed = (load_ledger().get('$shared') not in (None, shared_sources_digest(repo, specs)))
+    code, report = evaluate(pid, res, known, ledger, repo_root, tier, shared_changed)
     if tier == 'thorough':
         n, units_x, errs = conformance(pid, res, repo_root, jobs)
         report['conformance'] = {'units_cross_checked_natively': units_x, 'valid_samples': n, 'disagreements': len(errs)}
@@ -252,6 +253,27 @@ def main(argv):
         pid, report['obligations'], report['discharged'], len(report['failed']), len(report['undecided']),
         len(report['known_hits']), len(res), time.time() - t0, code))
     return code
+
+
+def shared_sources_digest(repo, specs):
+    """hash of the repository code that is not under a call-site contract of its own (constructors, state classes,
+    trampolines, module constants): any unit may inline it, so a change there counts as a change of every unit"""
+    import ast, copy
+    h = hashlib.sha256()
+    contracted = set(t for t, cs in specs.contracts.items() if any(c.callsite for c in cs))
+    for mname in sorted(repo.modules):
+        m = repo.modules[mname]
+        tree = copy.deepcopy(m.tree)
+        for sub in tree.body:
+            if isinstance(sub, ast.FunctionDef) and (mname + '.' + sub.name) in contracted:
+                sub.body = [ast.Pass()]
+            elif isinstance(sub, ast.ClassDef):
+                for meth in sub.body:
+                    if isinstance(meth, ast.FunctionDef) and (mname + '.' + sub.name + '.' + meth.name) in contracted:
+                        meth.body = [ast.Pass()]
+        h.update(mname.encode())
+        h.update(ast.dump(tree).encode())
+    return h.hexdigest()[:20]
 
 
 def static_digest(repo, specs, timeout_ms):
@@ -331,7 +353,7 @@ def run_cached(repo, specs, sel, jobs, timeout_ms, repo_root, tier):
     return res, len(sel) - len(todo)
 
 
-def evaluate(pid, res, known, ledger, repo_root, tier):
+def evaluate(pid, res, known, ledger, repo_root, tier, shared_changed=False):
     lines = []
     failed, undecided, errors, known_hits = [], [], [], []
     n_obl = n_dis = 0
@@ -354,7 +376,9 @@ def evaluate(pid, res, known, ledger, repo_root, tier):
         if canaries and all(o['result'] == 'proved' for o in canaries):
             errors.append((r['label'], 'VACUOUS: the canary `false` was proved on every exit path (contradictory preconditions?)'))
         base = (ledger or {}).get(r['label'])
-        changed = base is not None and base.get('hash') != r.get('fn_hash')
+        # the unit counts as changed when its own function changed, or when code any unit may inline (constructors, state
+        # classes, trampolines) changed with respect to the committed baseline
+        changed = base is not None and (base.get('hash') != r.get('fn_hash') or shared_changed)
         for o in real:
             key = obligation_key(r, o)
             seen_keys.add(key)
@@ -535,6 +559,7 @@ def do_ledger(repo_root, jobs):
         ledger[pid] = ent
     from . import alpha
     ledger['$alpha'] = alpha.baseline(front_repo_raw(repo_root))
+    ledger['$shared'] = shared_sources_digest(repo, specs)
     json.dump(ledger, open(os.path.join(VERIF, 'ledger.json'), 'w'), indent=0)
     print('ledger written:', {k: sum(len(e['proved']) for e in v.values()) for k, v in ledger.items() if not k.startswith('$')})
     return 0
